@@ -1472,6 +1472,43 @@ func scannerKeywords(p *Prog) (*scanKeywords, error) {
 							}
 						}
 					}
+					// range element of a list parameter (readAnyOf(candidates ...string)): the literal list passed at
+					// the single call site
+					if ld, ok := arg.(*ssa.UnOp); ok && ld.Op == token.MUL {
+						if ia, ok := ld.X.(*ssa.IndexAddr); ok {
+							if lp, isPrm := ia.X.(*ssa.Parameter); isPrm {
+								pidx := -1
+								for i, fp := range f.Params {
+									if fp == lp {
+										pidx = i
+									}
+								}
+								var sites []*ssa.Call
+								for _, g := range p.RList {
+									for _, gb := range g.Blocks {
+										for _, gin := range gb.Instrs {
+											if gc, ok := gin.(*ssa.Call); ok && gc.Call.StaticCallee() == f && pidx >= 0 && pidx < len(gc.Call.Args) {
+												sites = append(sites, gc)
+											}
+										}
+									}
+								}
+								if len(sites) == 1 {
+									te := &tableEval{p: p}
+									if tv, err := te.eval(sites[0].Call.Args[pidx], sites[0].Parent()); err == nil {
+										if ss, err := tv.Strings(); err == nil {
+											if err := isRangeIndexOf(ia.Index, ia.X); err != nil {
+												return nil, fmt.Errorf("%s: keyword list is not tried by a full forward range: %v", p.pos(c.Pos()), err)
+											}
+											k.Operators = append(k.Operators, ss...)
+											k.OperatorFn = sites[0].Parent()
+											continue
+										}
+									}
+								}
+							}
+						}
+					}
 					// range element of a literal list
 					if ld, ok := arg.(*ssa.UnOp); ok && ld.Op == token.MUL {
 						if ia, ok := ld.X.(*ssa.IndexAddr); ok {
